@@ -194,6 +194,16 @@ def _decide_one(src, new, feeds, rel, abs_):
         if all(x.startswith("EXEC ") for x in comps):
             if any("ORT-CRASH" in x for x in comps):
                 return ("inconclusive_split", f"onnxruntime crashed: ort: {cmp_ort} | ref: {cmp_ref}")
+            if len(comps) == 1 and cmp_ort is not None and "Got invalid dimensions for input" in cmp_ort:
+                # onnx.reference rejects the SOURCE on this input; onnxruntime ran it only because it is lenient about empty operands
+                # (Concat with a zero-size operand whose other dims differ).  The result declares the input dimension that the graph
+                # implies (shape inference refined '?' to the only value the spec allows) and ORT's input validation now refuses the
+                # feed: the input was outside the source model's domain, nothing to compare
+                return ("inconclusive_single_runtime", f"ort: {cmp_ort} | ref: {cmp_ref}")
+            if len(comps) == 1 and cmp_ref is not None and ("Unexpected shape" in cmp_ref or "Shape inconsistencies" in cmp_ref):
+                # only onnx.reference ran the source, and on the result it trips the internal consistency check of its own Conv kernel
+                # (op_conv.py: pads + strides + zero-size output): a limitation of that runtime, not evidence about the transformation
+                return ("inconclusive_single_runtime", f"ort: {cmp_ort} | ref: {cmp_ref}")
             return ("violation_not_executable", f"ort: {cmp_ort} | ref: {cmp_ref}")
         if len(comps) == 1:
             # only one runtime could execute the SOURCE model: a value difference on that runtime alone is not trusted
